@@ -20,6 +20,7 @@ package multiendpoint
 //@ protect endpoint.{id} immutable
 //@ protect endpoint.{priority,status,lastChange,futureChange} guarded_by multiEndpoint.RWMutex
 //@ tracked endpoint
+//@ racestrict multiEndpoint endpoint
 //@ globalinv timeNow != nil && timeAfterFunc != nil
 
 // ---------------------------------------------------------------- MEInv (lock invariant of the embedded RWMutex)
